@@ -64,6 +64,7 @@ type State struct {
 	useOld   bool
 	steps    int
 	freshErrs []string
+	facts    map[string]bool
 	frontier string
 	isAxiom  map[int]bool
 	conds    map[string]bool   // branch conditions already decided on this path
@@ -94,6 +95,10 @@ func (st *State) fork() *State {
 	n.trail = append([]string(nil), st.trail...)
 	n.protected = append([]string(nil), st.protected...)
 	n.freshErrs = append([]string(nil), st.freshErrs...)
+	n.facts = make(map[string]bool, len(st.facts))
+	for k := range st.facts {
+		n.facts[k] = true
+	}
 	n.isAxiom = make(map[int]bool, len(st.isAxiom))
 	for k, v := range st.isAxiom {
 		n.isAxiom[k] = v
